@@ -18,11 +18,21 @@ INT = z3.IntSort()
 BOOL = z3.BoolSort()
 KS = z3.RealSort()
 
-ELEM_SORT = {"K": KS, "V": INT, "R": INT, "I": INT, "A": INT}
+# U: an element of a serialised state tuple -- a key, a value or a reference
+# (states interleave them: (k0, v0, k1, v1, ...) / (child0, key1, child1, ...))
+_U = z3.Datatype("U")
+_U.declare("UK", ("uk", KS))
+_U.declare("UV", ("uv", INT))
+_U.declare("UR", ("ur", INT))
+US = _U.create()
+
+ELEM_SORT = {"K": KS, "V": INT, "R": INT, "I": INT, "A": INT, "U": US}
 # element-kind -> SV kind of an element
-ELEM_KIND = {"K": "K", "V": "V", "R": "ref", "I": "int", "A": "any"}
+ELEM_KIND = {"K": "K", "V": "V", "R": "ref", "I": "int", "A": "any", "U": "U"}
 KIND_SORT = {"int": INT, "bool": BOOL, "K": KS, "V": INT, "ref": INT,
-             "list": INT, "any": INT}
+             "list": INT, "any": INT, "U": US}
+ELEM_DEFAULT = {"K": z3.RealVal(0), "V": z3.IntVal(0), "R": z3.IntVal(0), "I": z3.IntVal(0),
+                "A": z3.IntVal(0), "U": US.UV(0)}
 
 
 class SV:
